@@ -70,7 +70,7 @@ func storeShapes(info *types.Info, us *unmarshalShape, a *arm, recv types.Object
 							continue
 						}
 						if id, ok := c.Fun.(*ast.Ident); ok && id.Name == "make" {
-							out = append(out, "make-map")
+							out = append(out, "make")
 							continue
 						}
 					}
@@ -213,7 +213,7 @@ func checkC06(r *core.Result) {
 					var wantS string
 					switch {
 					case isMap:
-						wantS = "make-map,map-insert"
+						wantS = "make,map-insert"
 					case rep && packableKind(k):
 						wantS = "append,append-spread"
 						if k == protoreflect.EnumKind || k == protoreflect.Sfixed32Kind || k == protoreflect.Sfixed64Kind {
